@@ -95,6 +95,9 @@ type Gen struct {
 	// is a relation target.
 	TargetRemovalPct int
 	serial           int
+	fanned           bool
+	// Wide allows one "fanout" per case: 33-40 parents with one child each (needs Lim.MaxAlive >= 130).
+	Wide bool
 	// IllegalQuerySteps adds out-of-range EntityAt/Step calls to query scripts.
 	IllegalQuerySteps bool
 	// Illegal lists the illegal-argument classes to inject, IllegalPct how often (percent of ops).
@@ -438,6 +441,12 @@ func (g *Gen) Draw(t *rapid.T) (Op, bool) {
 		if op, ok := g.DrawIllegal(t, g.Illegal); ok {
 			return op, true
 		}
+	}
+	if g.Wide && !g.fanned && len(g.M.U.Rel) > 0 && g.M.NAlive+90 <= g.Lim.MaxAlive && len(g.M.Ents)+90 <= g.Lim.MaxTotal && rapid.IntRange(0, 5).Draw(t, "fanout?") == 0 {
+		g.fanned = true
+		rel := pick(t, g.relComps(), "fanrel")
+		child := append(subset(t, g.plainComps(), 0, "fanchild"), rel)
+		return Op{K: OpFanout, N: rapid.IntRange(33, 40).Draw(t, "fann"), Add: subset(t, g.plainComps(), 0, "fanparent"), Rem: child, C: rel}, true
 	}
 	en := g.Enabled()
 	if len(en) == 0 {
